@@ -50,7 +50,7 @@ type c06Params struct {
 func (c06) ID() string    { return "C06" }
 func (c06) Level() string { return "exploration" }
 func (c06) Rule() string {
-	return "each case: suite x dynamic-record-sizing on/off x transport segmentation (whole / random 1..available / one byte per transport read) x a sequence of write sizes per direction drawn around the interesting boundaries (0, 1, the 1208-byte ramp, 16383/16384/16385, multiples of 16384 up to 4x; runs of 1..40 writes without payload) x a cycle of read-buffer sizes from 1 byte to 64 KiB. The client writes, half-closes (CloseWrite), the server reads to EOF, writes, closes, the client reads to EOF; in a third of the cases the server writes first, straight after its Finished; in a sixth the server's certificate chain makes the Certificate message 15-45 KB; the transport may report end-of-stream together with the last bytes; the client's data may pause for two seconds a few bytes into its first record while the server reads with one-second deadlines and tries again after each timeout. Oracle: every Write returns its length; concatenated reads equal concatenated writes followed by io.EOF; the wire monitor opens every record: plaintext <= 16384, ciphertext <= 16384+2048. In a quarter of the client-first cases the client first polls for early data with a 100 ms read deadline (times out), writes 200 ms later with the expired read deadline still in place and clears it only before it reads. In a fifth of the cases both directions run at once: on each end one task writes while another reads. distinct = distinct parameter vectors; non-trivial = both directions carried data and ended in EOF"
+	return "each case: suite x dynamic-record-sizing on/off x transport segmentation (whole / random 1..available / one byte per transport read) x a sequence of write sizes per direction drawn around the interesting boundaries (0, 1, the 1208-byte ramp, 16383/16384/16385, multiples of 16384 up to 4x; runs of 1..40 writes without payload) x a cycle of read-buffer sizes from 1 byte to 64 KiB. The client writes, half-closes (CloseWrite), the server reads to EOF, writes, closes, the client reads to EOF; in a third of the cases the server writes first, straight after its Finished; in a sixth the server's certificate chain makes the Certificate message 15-45 KB; the transport may report end-of-stream together with the last bytes; the client's data may pause for two seconds a few bytes into its first record while the server reads with one-second deadlines and tries again after each timeout. Oracle: every Write returns its length; concatenated reads equal concatenated writes followed by io.EOF; the wire monitor opens every record: plaintext <= 16384, ciphertext <= 16384+2048. In a quarter of the client-first cases the client first polls for early data with a 100 ms read deadline (times out), writes 200 ms later with the expired read deadline still in place and clears it only before it reads. In a fifth of the cases both directions run at once: on each end one task writes while another reads. In a quarter of the cases both ends handshake through HandshakeContext with a context of their own that they cancel as soon as the handshake has succeeded. distinct = distinct parameter vectors; non-trivial = both directions carried data and ended in EOF"
 }
 func (c06) Components() (real, stub []string) {
 	return []string{"tlcp.Conn client+server (instrumented): Write/Read/CloseWrite/Close, record splitting and reassembly"},
